@@ -121,31 +121,6 @@ structure Laws {Obj : Type} (E : Env Obj) : Prop where
   magic : ∀ c ∈ compressors, c.available = true → ∀ l b, c.pfx <+: E.compress c.name l b
   inverse : ∀ c ∈ compressors, c.available = true → ∀ l b, E.decompress c.name (E.compress c.name l b) = some b
 
-/-- Whatever `dump` ends up writing through is a registered, available compressor. -/
-theorem writer_codec_registered (r : Resolved) (n : String) (l : Option Nat)
-    (h : writer r = .ok (.codec n l)) : ∃ c ∈ compressors, c.name = n ∧ c.available = true := by
-  unfold writer at h
-  split at h
-  · cases h
-  · simp only [] at h
-    split at h
-    · cases h
-    · rename_i c hl
-      obtain ⟨hmem, hname⟩ := lookup_mem _ c hl
-      split at h
-      · cases h
-      · rename_i hav
-        have hav' : c.available = true := by simpa using hav
-        refine ⟨c, hmem, ?_, hav'⟩
-        split at h
-        · cases h; exact hname
-        · cases h; exact hname
-        · cases h; exact hname
-        · split at h
-          · cases h
-          · cases h; exact hname
-        · cases h
-
 /-- **Round trip.** For every object, compress argument, target, file name at dump time and protocol for
 which `dump` does not raise, `load` of the bytes written gives back the object — under whatever name the file
 is loaded. -/
@@ -184,102 +159,23 @@ theorem roundtrip {Obj : Type} (E : Env Obj) (L : Laws E) (x : Obj) (compress : 
 
 /-! ## resolve_total -/
 
-/-- Level values `dump` accepts: `None`, a bool, an integer 0…9 (an integral float 0.0…9.0 passes `dump`'s
-own test too — `3.0 in range(10)` — and is rejected later by the codec's file object, see `writer_float`). -/
-def LevelOK : PyLevel → Bool
-  | .none => true
-  | .bool _ => true
-  | .int n => decide (0 ≤ n) && decide (n < 10)
-  | .float n => decide (0 ≤ n) && decide (n < 10)
-  | .other => false
-
-/-- Method names `dump` accepts: registered, and not `"lz4"` while the lz4 package is missing. -/
-def MethodOK (s : String) : Bool := registered s && !(s == "lz4" && !lz4Installed)
-
-/-- The compress arguments `dump` accepts. -/
-def ArgOK : CompressArg → Bool
-  | .val l => LevelOK l
-  | .str s => MethodOK s
-  | .tuple2 (.str s) l => MethodOK s && LevelOK l
-  | .tuple2 _ _ => false
-  | .tupleN _ => false
-
-theorem levelBad_eq (l : PyLevel) : levelBad l = !LevelOK l := by
-  cases l with
-  | bool b => cases b <;> simp [levelBad, LevelOK, PyLevel.inRange10]
-  | _ => simp [levelBad, LevelOK, PyLevel.inRange10]
-
-theorem finish_ok (name : String) (l : PyLevel) (t : Bool) (filename : Target) :
-    (∃ r, finish name l t filename = .ok r) ↔ filename ≠ .other := by
-  cases filename with
-  | other => simp [finish]
-  | fileobj => simp [finish]
-  | path f =>
-    simp only [finish, ne_eq, reduceCtorEq, not_false_eq_true, iff_true]
-    split
-    · exact ⟨_, rfl⟩
-    · split <;> exact ⟨_, rfl⟩
-
-theorem finish_error (name : String) (l : PyLevel) (t : Bool) (filename : Target) (e : Err)
-    (hf : finish name l t filename = .error e) : e = .valueError := by
-  cases filename with
-  | other => simp [finish] at hf; exact hf.symm
-  | fileobj => simp [finish] at hf
-  | path f =>
-    simp only [finish] at hf
-    split at hf
-    · cases hf
-    · split at hf <;> cases hf
-
-theorem str_beq (s : String) : (PyMethod.str s == PyMethod.str "lz4") = (s == "lz4") := by
-  by_cases h : s = "lz4"
-  · subst h; rfl
-  · have h1 : (PyMethod.str s == PyMethod.str "lz4") = false := by
-      rw [beq_eq_false_iff_ne]; intro hh; cases hh; exact h rfl
-    have h2 : (s == "lz4") = false := by rw [beq_eq_false_iff_ne]; exact h
-    rw [h1, h2]
-
-/-- the tail of the ladder for a method STRING -/
-theorem resolveTail_str_ok (s : String) (l : PyLevel) (t : Bool) (filename : Target) :
-    (∃ r, resolveTail (.str s) l t filename = .ok r)
-    ↔ (MethodOK s = true ∧ LevelOK l = true ∧ filename ≠ .other) := by
-  unfold resolveTail
-  rw [str_beq, levelBad_eq]
-  unfold MethodOK checkMethod
-  by_cases h4 : (s == "lz4" && !lz4Installed) = true
-  · simp [h4]
-  · by_cases hl : LevelOK l = true
-    · by_cases hr : registered s = true
-      · have h4' : (s == "lz4" && !lz4Installed) = false := by simpa using h4
-        simp only [h4', hl, hr, Bool.not_true, Bool.false_eq_true, if_false, if_true, Bool.not_false,
-          Bool.and_self, true_and]
-        exact finish_ok _ _ _ _
-      · simp [h4, hl, hr]
-    · simp [h4, hl]
-
-theorem resolveTail_str_error (s : String) (l : PyLevel) (t : Bool) (filename : Target) (e : Err)
-    (ht : resolveTail (.str s) l t filename = .error e) : e = .valueError := by
-  unfold resolveTail at ht
-  split at ht
-  · cases ht; rfl
-  · split at ht
-    · cases ht; rfl
-    · simp only [checkMethod] at ht
-      by_cases hr : registered s = true
-      · simp only [hr, if_true] at ht
-        exact finish_error _ _ _ _ _ ht
-      · simp only [hr, Bool.false_eq_true, if_false] at ht
-        cases ht; rfl
-
-theorem resolve_val (l : PyLevel) (filename : Target) :
-    resolve (.val l) filename
-      = resolveTail (.str "zlib") (if l = .bool true then .none else l) false filename := by
-  cases l with
-  | bool b => cases b <;> simp [resolve, parseArg]
-  | _ => simp [resolve, parseArg]
+/-! The acceptance specification (`ArgOK`, `MethodOK`, `LevelOK`) is DEFINED in
+`JoblibProofs/Lemmas/DumpLoad.lean`; it is spelled out here (checked by `rfl`, so this is what it says):
+a level is acceptable when it is `None`, a bool, an integer in 0…9 or an integral float 0.0…9.0; a method name
+when it is registered and is not `"lz4"` while the lz4 package is missing; a compress argument when it is a
+level value on its own, a method name on its own, or a 2-tuple of an acceptable name and an acceptable level.
+Nothing else: tuples of another length, and tuples whose first element is not a string, are rejected. -/
+example (l : PyLevel) : ArgOK (.val l) = LevelOK l := rfl
+example (s : String) : ArgOK (.str s) = MethodOK s := rfl
+example (s : String) (l : PyLevel) : ArgOK (.tuple2 (.str s) l) = (MethodOK s && LevelOK l) := rfl
+example (l : PyLevel) : ArgOK (.tuple2 .hashable l) = false ∧ ArgOK (.tuple2 .unhashable l) = false := ⟨rfl, rfl⟩
+example (n : Nat) : ArgOK (.tupleN n) = false := rfl
+example (s : String) : MethodOK s = (registered s && !(s == "lz4" && !lz4Installed)) := rfl
+example (n : Int) : LevelOK (.int n) = (decide (0 ≤ n) && decide (n < 10)) ∧ LevelOK (.float n) = (decide (0 ≤ n) && decide (n < 10)) := ⟨rfl, rfl⟩
+example (b : Bool) : LevelOK .none = true ∧ LevelOK (.bool b) = true ∧ LevelOK .other = false := ⟨rfl, rfl, rfl⟩
 
 /-- **The exact set of accepted arguments**: the ladder of `dump` succeeds iff the compress argument is one of
-the documented forms (`ArgOK`) and the target is a path or has a `write` attribute. -/
+the documented forms (`ArgOK`, above) and the target is a path or has a `write` attribute. -/
 theorem resolve_total (compress : CompressArg) (filename : Target) :
     (∃ r, resolve compress filename = .ok r) ↔ (ArgOK compress = true ∧ filename ≠ .other) := by
   have hz : MethodOK "zlib" = true := by
@@ -384,20 +280,6 @@ theorem str_ignores_filename (s : String) (f₁ : String) :
     · rfl
     · cases checkMethod (.str s) <;> simp [finish]
 
-theorem resolveTail_level (m : PyMethod) (l : PyLevel) (tgt : Target) (r : Resolved)
-    (hr : resolveTail m l true tgt = .ok r) : r.level = l := by
-  unfold resolveTail at hr
-  split at hr
-  · cases hr
-  · split at hr
-    · cases hr
-    · split at hr
-      · cases hr
-      · cases tgt with
-        | other => simp [finish] at hr
-        | fileobj => simp [finish] at hr; rw [← hr]
-        | path f => simp [finish] at hr; rw [← hr]
-
 /-- Level-0 rule, tuple form: `(name, 0)` / `(name, False)` writes the RAW pickle whatever the file is called. -/
 theorem level_zero_rule (s : String) (l : PyLevel) (hz : l.eqZero = true) (tgt : Target) (w : Writer)
     (h : dumpHeader (.tuple2 (.str s) l) tgt = .ok w) : w = .raw := by
@@ -489,8 +371,6 @@ def toyEnv : Env Bytes where
   compress := fun n _ b => ((lookup n).map (·.pfx)).getD [] ++ b
   decompress := fun n b => some (b.drop (((lookup n).map (·.pfx)).getD []).length)
 
-theorem toy_lookup : compressors.all (fun c => lookup c.name == some c) = true := by decide
-
 example : Laws toyEnv where
   unpickle_pickle := by
     intro p _ x
@@ -505,12 +385,12 @@ example : Laws toyEnv where
     · rfl
   magic := by
     intro c hc _ l b
-    have := List.all_eq_true.mp toy_lookup c hc
+    have := List.all_eq_true.mp (by decide : compressors.all (fun c => lookup c.name == some c) = true) c hc
     simp only [beq_iff_eq] at this
     simp [toyEnv, this]
   inverse := by
     intro c hc _ l b
-    have := List.all_eq_true.mp toy_lookup c hc
+    have := List.all_eq_true.mp (by decide : compressors.all (fun c => lookup c.name == some c) = true) c hc
     simp only [beq_iff_eq] at this
     simp [toyEnv, this]
 
